@@ -730,12 +730,20 @@ func c13a(c *Ctx) {
 		for _, st := range storesToField(fn, "ast", "MartStatement", "Items") {
 			for _, e := range appendElems(st.Val) {
 				t := c.term(fn, e)
-				ti := ""
+				// (TokenItems as it is when the items are made, or as it is when the node is handed back)
+				var tis []string
 				for _, a := range allocsOf(fn, "ast", "MartStatement") {
-					ti = c.fieldAtUse(fn, a, "TokenItems", st)
+					tis = append(tis, c.fieldAtUse(fn, a, "TokenItems", st))
+					for _, r := range returnsOf(fn) {
+						if isSuccessReturn(r) && len(r.Results) > 0 && r.Results[0] == ssa.Value(a) {
+							tis = append(tis, c.fieldAtUse(fn, a, "TokenItems", r))
+						}
+					}
 				}
-				if ti != "" && strings.HasPrefix(t, "(*parser.Parser).tryReplaceWithConstant($0,"+ti+"[phi(") && strings.Contains(t, "+1].Literal)") {
-					ok = true
+				for _, ti := range tis {
+					if ti != "" && ti != "zero" && strings.HasPrefix(t, "(*parser.Parser).tryReplaceWithConstant($0,"+ti+"[phi(") && strings.Contains(t, "+1].Literal)") {
+						ok = true
+					}
 				}
 			}
 		}
